@@ -17,6 +17,7 @@ import QbeeModel.Model.Tick
 import QbeeModel.Model.Dbg
 import QbeeModel.Model.DbgEval
 import QbeeModel.Model.Blocks
+import QbeeModel.Model.Lex
 /-
   Line-protocol driver for the executable models.  One request per line, one
   answer per line.  Unknown or malformed requests answer `bad-op`; the models
@@ -654,6 +655,21 @@ def handleBlocks (r : List String) : Option String := do
     | .error (.beforeCase l) => s!"err beforecase 0 {l}"
     | .error (.illegalInType l) => s!"err intype 0 {l}")
 
+
+/-! ### the lexical layer (C14): `lex <text>` -> the token stream, one item per token -/
+
+def encLexTok : Lex.Tok → String
+  | .word w => "W" ++ encStr w
+  | .str s => "S" ++ encStr s
+  | .raw kw t => "R" ++ encStr kw ++ "," ++ encStr t
+  | .sym c => s!"Y{c.toNat}"
+  | .sym2 c d => s!"Z{c.toNat},{d.toNat}"
+  | .nl => "N"
+
+def handleLex (t : String) : Option String := do
+  let s ← decStr t
+  pure (" ".intercalate ((Lex.lex s).map encLexTok))
+
 def handle (toks : List String) : String :=
   match toks with
   | "print" :: r =>
@@ -748,6 +764,7 @@ def handle (toks : List String) : String :=
   | "dbg" :: r => (handleDbg r).getD "bad-op"
   | "dbgeval" :: r => (handleDbgEval r).getD "bad-op"
   | "blocks" :: r => (handleBlocks r).getD "bad-op"
+  | ["lex", t] => (handleLex t).getD "bad-op"
   | ["uscan", f] =>
     match decStr f with
     | some f => match Using.scanFmt f with
